@@ -387,6 +387,28 @@ func runCheck(prop, tier string, ovs []string, only string, writeBaseline, noRep
 				names = append(names, fr.eng.trivial...)
 			}
 		}
+		// clause-level entries: an effect clause that held for every call it applied to in a function (including
+		// none at all) is recorded as such, so that a call added later which breaks it is judged against the baseline
+		failedClause := map[string]bool{}
+		for _, r := range all {
+			if r.ob.Kind == "effect" && r.verdict != "discharged" {
+				failedClause[effectClauseKey(r.ob.Name)] = true
+			}
+		}
+		for _, fr := range frs {
+			if fr.eng == nil || fr.fc == nil || fr.undecided != "" {
+				continue
+			}
+			for _, ec := range fr.fc.EffectCl {
+				if ec.History || propOfLabel(ec.Label) != prop {
+					continue
+				}
+				key := fr.fc.Func + "#effect:" + ec.Label + ":*"
+				if !failedClause[key] {
+					names = append(names, key)
+				}
+			}
+		}
 		sort.Strings(names)
 		os.MkdirAll(filepath.Join(verifDir, "baseline"), 0o755)
 		js, _ := json.MarshalIndent(baselineFile{Property: prop, Discharged: names}, "", " ")
@@ -533,7 +555,7 @@ func decide(ctx *Context, r *OblResult, prop string, baseline map[string]bool, t
 	// An obligation that was discharged on the unchanged tree and now has a counter-model (that the replay could not
 	// turn into a failing run) is reported with the solver's reason attached. A solver that merely gives up
 	// (unknown / timeout, also after the longer retry) is not evidence of a violation: undecided.
-	if baseline[r.ob.Name] && r.status == "sat" {
+	if (baseline[r.ob.Name] || r.ob.Kind == "effect" && baseline[effectClauseKey(r.ob.Name)]) && r.status == "sat" {
 		r.verdict = "violation-unconfirmed"
 		return
 	}
@@ -734,3 +756,13 @@ func writeEvidence(prop, tier string, seed int, frs []*FuncResult, all []*OblRes
 }
 
 func relPos(p string) string { return strings.TrimPrefix(p, repoDir+"/") }
+
+// effectClauseKey maps the name of an effect obligation (f#effect:<label>:<callee>[#n]) to the baseline key of its
+// clause in that function (f#effect:<label>:*).
+func effectClauseKey(name string) string {
+	i := strings.LastIndex(name, ":")
+	if i < 0 || !strings.Contains(name, "#effect:") {
+		return name
+	}
+	return name[:i] + ":*"
+}
